@@ -70,13 +70,17 @@ def step (st : Option String) (line : String) : Option String × String :=
     match kv rest "kind", kv rest "op", (kv rest "k").bind String.toNat?, (kv rest "n").bind String.toNat?,
           (kv rest "prog").bind parseProg with
     | some kind, some op, some k, some n, some shapes =>
+      -- `tail=1`: the operation succeeds and a later write of the same transaction fails (k = n+1); that
+      -- write is outside the operation, its (empty) chain propagates
+      let tail := kv rest "tail"
       if op.isEmpty || k < 1 || !(kind == "tx" || kind == "addr") then (st, "bad-op")
+      else if tail.isSome && (tail != some "1" || k != n + 1) then (st, "bad-op")
       else if st != some kind then (st, "no-state")
       else if nWrites shapes != n then (st, "bad-n")
       else
         match (framesOf shapes).find? (fun f => (ErrSitesGen.table.lookup f).isNone) with
         | some f => (st, s!"unknown-site {f}")
-        | none => (st, reply shapes k)
+        | none => (st, reply (if tail.isSome then shapes ++ [.w []] else shapes) k)
     | _, _, _, _, _ => (st, "bad-op")
   | _ => (st, "bad-op")
 
